@@ -32,7 +32,7 @@ def _evaluate(text, frags, space, acc, sqlparse):
 
 
 def run(tier, seed):
-    sp = _e1parse.parse_spaces(tier, focus=('D1', 'D2'))
+    sp = _e1parse.parse_spaces(tier, focus=() if tier == 'quick' else ('D1', 'D2'), light=True)
     merged, sizes = e1.run(sp, _evaluate, seed, bits=27 if tier == 'thorough' else 23, setup=_setup)
     cov = {
         'evaluations': merged['n'], 'distinct_nontrivial': merged['distinct'],
